@@ -62,6 +62,8 @@ struct Matrix<'a> {
     name: &'a str,
     g: &'a Graph,
     pres: Presentation,
+    /// oracle part of the matrix: complete tree, or the default path only (large members of S)
+    dev_bound: Option<usize>,
     acc: &'a mut Acc,
 }
 
@@ -85,7 +87,7 @@ impl<'a> BuiltVisitor for Matrix<'a> {
                             let r = catch(|| run_query(b, &q, cadical_factory()));
                             note(r.as_ref().ok().and_then(|o| o.status()), format!("enc={} cert={} backend=cadical -> {}", enc.name(), cert, r.as_ref().map(|o| o.describe()).unwrap_or_else(|e| format!("panic {}", e))), self.acc);
                             // every leaf of the oracle choice tree
-                            let cfg = full_tree(FvPolicy::False);
+                            let cfg = crate::choicesat::ExploreCfg { dev_bound: self.dev_bound, ..full_tree(FvPolicy::False) };
                             let mut leaves: Vec<(Vec<usize>, Result<Out, String>)> = vec![];
                             match explore(&cfg, &mut |f| run_query(b, &q, f), &mut |e: &Exec<Out>| leaves.push((e.choices.clone(), e.result.clone()))) {
                                 Ok(st) => self.acc.stats.add(&st),
@@ -327,7 +329,7 @@ pub fn run(tier: Tier) -> i32 {
             if RefAnswers::new(g).ext(Sem::PR).len() >= 2 {
                 acc.nontrivial += 1;
             }
-            let mut m = Matrix { name, g, pres: p, acc: &mut acc };
+            let mut m = Matrix { name, g, pres: p, dev_bound: None, acc: &mut acc };
             with_presentation(g, p, &mut m);
             acc
         })
@@ -343,6 +345,32 @@ pub fn run(tier: Tier) -> i32 {
         rep.add_violation(v);
     }
     rep.machinery_errors.extend(acc.machinery);
+    // the same matrix on duplicate-attack presentations of U(<=2) and on the hybrid-threshold members
+    // of S (oracle default path only there): the encoders take different code paths on these
+    {
+        let mut gs: Vec<(String, Graph, Presentation, Option<usize>)> = small_universe(2).into_iter().map(|(n, g)| (n, g, Presentation::Dup, None)).collect();
+        gs.extend(s_family().into_iter().filter(|(n, g)| g.n <= 9 && n.starts_with("S:prod")).map(|(n, g)| (n, g, Presentation::Compact, Some(0))));
+        let acc = gs
+            .par_iter()
+            .with_max_len(1)
+            .map(|(name, g, p, d)| {
+                let mut acc = Acc::default();
+                let mut m = Matrix { name, g, pres: *p, dev_bound: *d, acc: &mut acc };
+                with_presentation(g, *p, &mut m);
+                acc
+            })
+            .reduce(Acc::default, Acc::merge);
+        rep.states += acc.stats.nodes;
+        rep.transitions += acc.stats.edges;
+        rep.traces += acc.cells;
+        rep.evaluations += acc.cells;
+        rep.extra.insert("part_a:configuration matrix on dup presentations of U(<=2) and on hybrid-threshold members of S".into(), json!({"graphs": gs.len(), "groups (problem x argument)": acc.groups, "cells compared": acc.cells}));
+        for (_, (n, v)) in acc.violations {
+            rep.n_violations += n - 1;
+            rep.add_violation(v);
+        }
+        rep.machinery_errors.extend(acc.machinery);
+    }
     // external-process cells (judged against the reference, hence against every other cell)
     if std::path::Path::new(crate::checks::c15::fake_sat()).exists() {
         let eg = graphs_for_external(thorough);
@@ -407,7 +435,7 @@ pub fn run(tier: Tier) -> i32 {
 pub fn replay_graph(g: &Graph, pres: Presentation, max_len: usize, rich: bool) -> Vec<(String, String)> {
     let mut acc = Acc::default();
     {
-        let mut m = Matrix { name: "replay", g, pres, acc: &mut acc };
+        let mut m = Matrix { name: "replay", g, pres, dev_bound: if g.n <= 3 { None } else { Some(0) }, acc: &mut acc };
         with_presentation(g, pres, &mut m);
     }
     {
